@@ -3,6 +3,7 @@ package props
 import (
 	"bytes"
 	"fmt"
+	"runtime"
 
 	"gitlab.com/gomidi/midi/v2/mmc"
 	"gitlab.com/gomidi/midi/v2/sysex"
@@ -21,7 +22,7 @@ func init() {
 			"Roland checksum rule: (sum of address + payload/size bytes + checksum) mod 128 == 0",
 			"ids and addresses are 7-bit values (sysex data bytes)",
 		},
-		Require: []string{"dataset_values", "request_values", "corruptions_rejected", "checksum_nonzero", "locate_values", "command_values", "held_across_later_build", "reparse_after_modification", "reused_receivers", "dump_packets_built", "appends_to_parsed_payloads"},
+		Require: []string{"dataset_values", "request_values", "corruptions_rejected", "checksum_nonzero", "locate_values", "command_values", "held_across_later_build", "reparse_after_modification", "reused_receivers", "dump_packets_built", "appends_to_parsed_payloads", "kept_values_checked_after_gc"},
 		Run:     runC18,
 	})
 }
@@ -208,6 +209,65 @@ func runC18(c *mon.Ctx) {
 			}
 		}
 		c.DistinctBytes(want, []byte(fmt.Sprint(psize, order)))
+	})
+
+	// only parts of parse results are kept (the payload slice, a copy of the struct by value) while the result
+	// pointers are dropped, garbage collections run, and more messages are parsed: what was kept stays what it was
+	c.Each("kept-across-gc", c.N(60, 3000), func(i int64, r *mon.Rand) {
+		n := r.Range(4, 24)
+		var keptPayload [][]byte
+		var keptStruct []sysex.Manufacturer
+		var want [][]byte
+		mkMsg := func() ([]byte, []byte) {
+			var m sysex.Manufacturer
+			m.ManufacturerID = sysex.ManufacturerID(r.Byte() & 0x7F)
+			m.DeviceID, m.ModelID = r.Byte()&0x7F, r.Byte()&0x7F
+			copy(m.Address[:], r.Bytes7(3))
+			m.SendingData = r.Bytes7(r.Pick(1, 4, 16, 64, 128, 256, 512))
+			return append([]byte(nil), m.SysEx()...), append([]byte(nil), m.SendingData...)
+		}
+		in := map[string]any{"values_kept": n}
+		for k := 0; k < n; k++ {
+			bt, w := mkMsg()
+			p, err := sysex.Parse(bt)
+			if err != nil {
+				c.Violation("parse-rejects-built", fmt.Sprintf("Parse(SysEx()) fails: %v", err), in, nil, err.Error())
+				return
+			}
+			if k%2 == 0 {
+				keptPayload = append(keptPayload, p.SendingData)
+				keptStruct = append(keptStruct, sysex.Manufacturer{})
+			} else {
+				keptPayload = append(keptPayload, nil)
+				keptStruct = append(keptStruct, *p)
+			}
+			want = append(want, w)
+		}
+		for round := 0; round < 3; round++ {
+			runtime.GC()
+			runtime.GC()
+			for k := 0; k < n; k++ { // more parsing after the collections
+				bt, _ := mkMsg()
+				if _, err := sysex.Parse(bt); err != nil {
+					c.Violation("parse-rejects-built", fmt.Sprintf("Parse(SysEx()) fails: %v", err), in, nil, err.Error())
+					return
+				}
+			}
+			for k := 0; k < n; k++ {
+				got := keptPayload[k]
+				how := "the payload slice of the result was kept"
+				if got == nil {
+					got = keptStruct[k].SendingData
+					how = "a copy of the result struct was kept"
+				}
+				c.Count("kept_values_checked_after_gc", 1)
+				if !bytes.Equal(got, want[k]) {
+					c.Violation("parsed-value-changed", fmt.Sprintf("value %d of %d (%s, the result pointer dropped): after garbage collections and %d more Parse calls its payload is %s, it was built from %s", k, n, how, (round+1)*n, mon.Hex(head(got, 12)), mon.Hex(head(want[k], 12))), in, mon.Hex(head(want[k], 16)), mon.Hex(head(got, 16)))
+					return
+				}
+			}
+		}
+		c.DistinctBytes([]byte(fmt.Sprint("kept", i, n)), want[0])
 	})
 
 	// parse results belong to the caller: after several messages were parsed, the payload of each result is
